@@ -4,6 +4,7 @@ import (
 	"bytes"
 	"crypto/sha256"
 	"encoding/binary"
+	"fmt"
 	"math/big"
 	"sync"
 
@@ -289,3 +290,96 @@ func derSig(r, s *big.Int, padR, padS, trail int, trailSeed uint64) []byte {
 }
 
 func equalBytes(a, b []byte) bool { return bytes.Equal(a, b) }
+
+// ---------------------------------------------------------------------------------------------
+// CompactSize form boundaries: a tiny transaction in which ONE count or length that the digest algorithms
+// serialise as a CompactSize is 252 / 253 / 254 / 65534 / 65535 / 65536 / 65537.
+
+var boundarySizes = []int{252, 253, 254, 65534, 65535, 65536, 65537}
+
+func tinyTx(seed uint64, nIn, nOut int) *wire.Tx {
+	tx := &wire.Tx{Version: 2, LockTime: uint32(seed), In: make([]wire.TxIn, nIn), Out: make([]wire.TxOut, nOut)}
+	base := fill(seed, 32)
+	for i := range tx.In {
+		copy(tx.In[i].PrevHash[:], base)
+		binary.LittleEndian.PutUint32(tx.In[i].PrevHash[:], uint32(i)) // distinct prevouts without a hash per input
+		tx.In[i].PrevIndex = uint32(i)
+		tx.In[i].Sequence = 0xfffffffe
+	}
+	for i := range tx.Out {
+		tx.Out[i].Value = uint64(1000 + i)
+	}
+	return tx
+}
+
+// genBoundary builds the case for one digest family.
+func genBoundary(t *rapid.T, kind string) (tx *wire.Tx, spent []spentOut, q req, label string) {
+	b := rapid.SampledFrom(boundarySizes).Draw(t, "boundary_size")
+	seed := rapid.Uint64().Draw(t, "boundary_seed")
+	feats := map[string][]string{
+		"legacy": {"n_outputs", "n_outputs", "out_script_len", "out_script_len", "code_len", "code_len", "code_len_after_codesep_removal", "n_inputs"},
+		"bip143": {"n_outputs", "out_script_len", "out_script_len", "code_len", "code_len"},
+		"bip341": {"n_outputs", "out_script_len", "out_script_len", "spent_script_len", "spent_script_len", "other_spent_script_len", "annex_len"},
+	}[kind]
+	feat := rapid.SampledFrom(feats).Draw(t, "boundary_feature")
+	label = fmt.Sprintf("boundary/%s=%d", feat, b)
+	nIn, nOut := rapid.IntRange(1, 2).Draw(t, "tiny_nin"), rapid.IntRange(1, 2).Draw(t, "tiny_nout")
+	switch feat {
+	case "n_outputs":
+		nOut = b
+	case "n_inputs":
+		nIn = b
+	}
+	tx = tinyTx(seed, nIn, nOut)
+	q = req{Kind: kind, Idx: 0}
+	code := []byte{0x51}
+	switch feat {
+	case "out_script_len":
+		tx.Out[0].PkScript = fill(seed, b)
+	case "code_len":
+		if kind == "legacy" {
+			code = bytes.Repeat([]byte{0x61}, b) // decodes completely, no separators
+		} else {
+			code = fill(seed, b)
+		}
+	case "code_len_after_codesep_removal":
+		k := rapid.IntRange(1, 3).Draw(t, "boundary_nsep")
+		code = bytes.Repeat([]byte{0x61}, b+k) // serialised without the k separators: CompactSize(b)
+		step := len(code) / k
+		for i := 0; i < k; i++ {
+			code[i*step+int(seed%uint64(step))] = 0xab
+		}
+	}
+	switch kind {
+	case "legacy":
+		q.Code = hx(code)
+		q.HashType = rapid.SampledFrom([]int64{1, 1, 1, 3, 0x81, 0x83, 2}).Draw(t, "boundary_ht")
+	case "bip143":
+		q.Code = hx(code)
+		q.Amount = 12345
+		q.HashType = rapid.SampledFrom([]int64{1, 1, 1, 3, 0x81, 0x83, 2}).Draw(t, "boundary_ht")
+	case "bip341":
+		q.HashType = rapid.SampledFrom([]int64{0, 1, 1, 3, 0x81, 0x83}).Draw(t, "boundary_ht")
+		spent = make([]spentOut, nIn)
+		for i := range spent {
+			spent[i] = spentOut{Value: uint64(5000 + i), Script: hx(append([]byte{0x51, 0x20}, fill(seed+uint64(i), 32)...))}
+		}
+		switch feat {
+		case "spent_script_len":
+			spent[0].Script = hx(fill(seed+1, b))
+		case "other_spent_script_len":
+			spent[len(spent)-1].Script = hx(fill(seed+1, b))
+		case "annex_len":
+			a := fill(seed+2, b)
+			a[0] = 0x50
+			h := hx(a)
+			q.Annex = &h
+		}
+		if rapid.Bool().Draw(t, "boundary_tapscript") {
+			q.Script = true
+			q.Leaf = hx(fill(seed+3, 32))
+			q.CSP = 0xffffffff
+		}
+	}
+	return
+}
